@@ -61,3 +61,8 @@ M("c15-from-thread-sync-no-exc", "C15", A, "AsyncIOBackend.run_sync_from_thread"
 
 N("c15-n-result-guard-flip", "C15", FT, CF, "        else:\n            if not future.cancelled():\n                future.set_result(retval)", "        else:\n            if future.cancelled():\n                pass\n            else:\n                future.set_result(retval)")
 N("c15-n-stop-order", "C15", FT, "BlockingPortal.stop", "        self._event_loop_thread_id = None\n        self._stop_event.set()", "        self._stop_event.set()\n        self._event_loop_thread_id = None")
+
+# from seeded change C15/d (round 2)
+M("c15-provider-forwards-exception", "C15", FT, "BlockingPortalProvider.__exit__", "portal_cm.__exit__(None, None, None)", "portal_cm.__exit__(exc_type, exc_val, exc_tb)", ["R15-g"])
+M("c15-provider-stops-with-leases-left", "C15", FT, "BlockingPortalProvider.__exit__", "            if not self._leases:", "            if True:", ["R15-g"])
+M("c15-provider-second-portal", "C15", FT, "BlockingPortalProvider.__enter__", "            if self._portal_cm is None:", "            if True:", ["R15-g"])
